@@ -185,6 +185,15 @@ var validSnippets = []string{
 	"local t = {f = function(self, x) return x end} return t:f(1), t.f(t, 2), t['f'](t, 3)",
 	"return #'abc', #\"\", -2 ^ 2, 2 ^ 3 ^ 2, not nil == true, 1 .. 2 == '12'",
 	"local s = '' for i = 1, 3 do s = s .. i end return s",
+	// a goto may jump over a local to labels at the end of the enclosing block (several labels, void statements between)
+	"do goto a; local x = 1; ::a:: ::b:: end return 1",
+	"do goto a; local x = 1; ::a:: ; ::b:: ; end return 1",
+	"local function f() goto done; local y = 2; ::done:: ::really_done:: end f() return 2",
+	"for i = 1, 2 do goto continue; local z = i; ::continue:: ::also:: end return 3",
+	"local n = 0 while n < 2 do n = n + 1 goto c1; local z = n; ::c1:: ::c2:: ::c3:: end return n",
+	"if true then goto e; local w = 1; ::e:: ::e2:: end return 4",
+	"goto fin; local q = 1; ::fin:: ::fin2::",
+	"do do goto inner; local u = 1; ::inner:: ::inner2:: end goto outer; local v = 2; ::outer:: ::outer2:: end return 5",
 }
 
 const lexAlphabet = "abcxyz_019 \t\n\r.,;:()[]{}=<>~+-*/%^#'\"\\eExX"
@@ -379,6 +388,8 @@ func loadOnce(L *lua.LState, rd io.Reader, viaString string, mode int) (v verdic
 	switch mode {
 	case 0:
 		fn, err = L.Load(rd, "<sim>")
+	case 2:
+		fn, err = L.LoadFile(viaString)
 	default:
 		fn, err = L.LoadString(viaString)
 	}
@@ -579,6 +590,27 @@ func (e *Engine) Run(t *core.Tape, cfg *core.Config, st *core.Stats) *core.Viola
 		}
 		if v2.class != base.class || v2.hLines != base.hLines {
 			return core.Violationf("nondeterministic-load", "Load and LoadString disagree on %s (%s): %s vs %s\ninput: %s", srcName, mutDesc, base.class, v2.class, quoteShort(src))
+		}
+	}
+
+	// LoadFile must agree: the same text behind a first line that starts with '#' (skipped, whatever its length)
+	if t.Choose(6) == 0 {
+		fill := []int{0, 1, 60, 4093, 4094, 4095, 4096, 4097, 8191, 8192, 9000}[t.Choose(11)]
+		f, err := os.CreateTemp("", "streamload*.lua")
+		if err != nil {
+			panic(err)
+		}
+		f.WriteString("#" + strings.Repeat("!", fill) + "\n" + src)
+		f.Close()
+		v3 := loadOnce(L, nil, f.Name(), 2)
+		os.Remove(f.Name())
+		st.Evals++
+		st.Probe("loadfile_behind_hash_line")
+		if !v3.ok {
+			return core.Violationf(v3.class, "LoadFile, source %s mutation %s behind a '#' line of %d bytes: %s\ninput: %s", srcName, mutDesc, fill+1, v3.detail, quoteShort(src))
+		}
+		if v3.class != base.class || v3.hNoLines != base.hNoLines {
+			return core.Violationf("nondeterministic-load", "Load and LoadFile (text behind a '#' line of %d bytes) disagree on %s (%s): %s vs %s (%s)\ninput: %s", fill+1, srcName, mutDesc, base.class, v3.class, v3.detail, quoteShort(src))
 		}
 	}
 
